@@ -64,5 +64,5 @@ let process (toks : string list) : string =
     let (_, st) = get_inc (int_of_string s) in hex_of_bytes st.i_nonce
   | _ -> "UNSUPPORTED"
 
-let () = List.iter (fun n -> register n process) ["PERM"; "AE"; "AEM"; "AEC"; "AESPEC"; "AI"; "TRNG"]
+let () = List.iter (fun n -> register n process) ["PERM"; "AE"; "AEM"; "AEC"; "AESPEC"; "AI"]
 
